@@ -74,12 +74,32 @@ static void perturb(void) {
     switch ((t_rng >> 16) & 7) { case 0: sched_yield(); break; case 1: usleep((t_rng >> 20) & 255); break; case 2: usleep(((t_rng >> 20) & 15) * 100); break; default: break; }
 }
 static void addact(const char* a) { if (t_acts[0]) strcat(t_acts, ","); strcat(t_acts, a); }
+/* Under ThreadSanitizer the harness must not add accesses of its own to what it observes: the workers start inside POOL_create, before main has stored
+ * g_pool and while POOL_create_advanced still writes threadCapacity / threadLimit (fields the real POOL_thread does not read before the first job is
+ * queued) - the section log would read both.  The TSan build therefore logs no pool fields (traces are compared in the plain build) and tells the two
+ * condition variables apart without g_pool. */
+#if defined(__has_feature)
+#  if __has_feature(thread_sanitizer)
+#    define ZV_TSAN 1
+#  endif
+#endif
+#if defined(__SANITIZE_THREAD__) && !defined(ZV_TSAN)
+#  define ZV_TSAN 1
+#endif
+#ifdef ZV_TSAN
+static const char* condname(pthread_cond_t* c) { (void)c; return "X"; }
+#else
 static const char* condname(pthread_cond_t* c) { return (g_pool && c == &g_pool->queuePushCond) ? "Push" : "Pop"; }
+#endif
 static void emit_section(void) {
+#ifdef ZV_TSAN
+    POOL_ctx* p = NULL;
+#else
     POOL_ctx* p = g_pool;
+#endif
     if (p) logf_("sec %s %s %zu %zu %d %zu %zu %zu %d\n", t_name, t_acts[0] ? t_acts : "-", p->queueHead, p->queueTail, p->queueEmpty,
                  p->numThreadsBusy, p->threadLimit, p->threadCapacity, p->shutdown);
-    t_acts[0] = 0; g_progress++;
+    t_acts[0] = 0; __atomic_add_fetch(&g_progress, 1, __ATOMIC_SEQ_CST);
 }
 static int zv_lock(pthread_mutex_t* m) { int r; perturb(); r = pthread_mutex_lock(m); t_inSection = 1; t_acts[0] = 0; return r; }
 static int zv_unlock(pthread_mutex_t* m) { emit_section(); t_inSection = 0; return pthread_mutex_unlock(m); }
@@ -97,10 +117,10 @@ static int g_workers = 0;
 static int g_created = 0, g_joined = 0, g_joinErrors = 0, g_exitedWorkers = 0;       /* thread accounting: POOL_free must join every worker it created */
 static void* wstart(void* o) { wstart_t w = *(wstart_t*)o; void* r; free(o); sprintf(t_name, "W%d", w.idx); t_rng = g_seed * 7919u + (unsigned)w.idx * 104729u + 17; r = w.fn(w.arg); __atomic_add_fetch(&g_exitedWorkers, 1, __ATOMIC_SEQ_CST); return r; }
 static int zv_create(pthread_t* t, const void* attr, void* (*fn)(void*), void* arg) {
-    wstart_t* w = (wstart_t*)malloc(sizeof *w); (void)attr; w->fn = fn; w->arg = arg; w->idx = g_workers++;
+    wstart_t* w = (wstart_t*)malloc(sizeof *w); (void)attr; w->fn = fn; w->arg = arg; w->idx = __atomic_fetch_add(&g_workers, 1, __ATOMIC_SEQ_CST);
     { int const r = pthread_create(t, NULL, wstart, w); if (r == 0) __atomic_add_fetch(&g_created, 1, __ATOMIC_SEQ_CST); return r; }
 }
-static int zv_join(pthread_t t) { int const r = t ? pthread_join(t, NULL) : 3 /* ESRCH: a zeroed handle */; if (r == 0) g_joined++; else g_joinErrors++; return r; }
+static int zv_join(pthread_t t) { int const r = t ? pthread_join(t, NULL) : 3 /* ESRCH: a zeroed handle */; if (r == 0) __atomic_add_fetch(&g_joined, 1, __ATOMIC_SEQ_CST); else __atomic_add_fetch(&g_joinErrors, 1, __ATOMIC_SEQ_CST); return r; }
 
 /* ---- programs ---- */
 #define MAXJ 256
@@ -181,7 +201,7 @@ static void parse_ops(char* s, prog_t* p) {
 }
 static void* watchdog(void* o) {
     long last = -1; int idle = 0; (void)o;
-    for (;;) { usleep(200000); if (g_progress == last) idle++; else { idle = 0; last = g_progress; }
+    for (;;) { usleep(200000); { long const now = __atomic_load_n(&g_progress, __ATOMIC_SEQ_CST); if (now == last) idle++; else { idle = 0; last = now; } }
         if (idle >= 25) { fwrite(g_buf, 1, g_len, stdout); printf("monitor FAIL hang: no critical section for 5 s (deadlock / lost wake-up)\n"); fflush(stdout); _exit(3); } }
     return NULL;
 }
